@@ -53,7 +53,12 @@ fn comp_body<'t>(bp: &mut BlockParser<'t, '_>) -> Option<Body<'t>> {
         let close_span = Span::new(close_span_start, close_span_end);
         let quantity_not_empty = quantity
             .iter()
-            .any(|t| !matches!(t.kind, T![ws] | T![block comment]));
+            .any(|t| {
+                !matches!(
+                    t.kind,
+                    T![ws] | T![newline] | T![line comment] | T![block comment]
+                )
+            });
         Some(Body {
             name,
             close: Some(close_span),
